@@ -23,6 +23,11 @@ static unsigned char spec_hmac_padded_key_byte(const unsigned char *k0, size_t k
 	return (unsigned char)((i < k0_len ? k0[i] : 0) ^ pad);
 }
 
+/* the same for one position: inside = (i < |K0|), key_byte = K0[i] if inside */
+static unsigned char spec_hmac_block_byte(int inside, unsigned char key_byte, unsigned char pad) {
+	return (unsigned char)((inside ? key_byte : 0) ^ pad);
+}
+
 /* v2 range: defined <=> pdu_len >= hash_len; length of the authenticated prefix */
 static int spec_pdu_v2_range_defined(size_t pdu_len, size_t hash_len) { return pdu_len >= hash_len; }
 #pragma CPROVER check push
